@@ -48,9 +48,13 @@ theorem get_mem (s : St) (o v : Obj) (h : s.get o = some v) : (o, v) ∈ s.value
 
 def Inv (w : World) (s : St) : Prop := Good w s ∧ PendingOK w s
 
-/-- a step never clears the `foreign` flag and, in runs that end with the flag clear, preserves the invariant -/
+/-- neither of the two events happened: no reference evaluated in a foreign context (F-C02-47), no callback fired
+    for a reference whose own target differs from the visitor's (#29) -/
+def Quiet (s : St) : Prop := s.foreign = false ∧ s.tclash = false
+
+/-- a step never clears the event flags and, in runs that end with both flags clear, preserves the invariant -/
 def Pres (w : World) (f : St → Res) : Prop :=
-  ∀ s s', f s = .ok s' → s'.foreign = false → s.foreign = false ∧ (Inv w s → Inv w s')
+  ∀ s s', f s = .ok s' → Quiet s' → Quiet s ∧ (Inv w s → Inv w s')
 
 theorem pres_foldRes (w : World) (f : Nat → St → Res) (hf : ∀ k, Pres w (f k)) :
     ∀ ks, Pres w (foldRes f ks)
@@ -65,56 +69,65 @@ theorem pres_foldRes (w : World) (f : Nat → St → Res) (hf : ∀ k, Pres w (f
       obtain ⟨h3, h4⟩ := hf k s s1 hk h1
       exact ⟨h3, fun hi => h2 (h4 hi)⟩
     | err _ => simp [hk] at h
-    | panic _ => simp [hk] at h
     | outOfFuel => simp [hk] at h
 
-/-- the step that runs the backtrack callbacks: this is where `TextIsGlobal` is needed -/
-theorem unvisit_inv (w : World) (hT : TextIsGlobal w) (t : Text) (o : Obj) (n : Node) (v : Option Obj) (s s' : St)
-    (hn : w.node o = some n) (hr : n.ref = some t)
-    (hi : Inv w s)
+/-- the step that runs the backtrack callbacks: a callback that fires while `tclash` stays clear belongs to a
+    reference whose own one-step target is the visitor's -/
+theorem unvisit_inv (w : World) (t : Text) (n : Node) (tg : Option (Loc × Obj)) (v : Option Obj) (s s' : St)
+    (hi : Inv w s) (htg : tg = w.target n.home t n.kind)
     (hv : ∀ v', v = some v' → ∃ cx' tgt tn f, w.target n.home t n.kind = some (cx', tgt) ∧ w.node tgt = some tn ∧
             tn.kind = n.kind ∧ designates w f tgt = some v')
-    (h : unvisit w n.kind t v s = .ok s') : s'.foreign = s.foreign ∧ Inv w s' := by
+    (h : unvisit w n.kind t tg v s = .ok s') (hq : s'.tclash = false) : Inv w s' := by
   obtain ⟨hg, hp⟩ := hi
   unfold unvisit at h
   cases v with
   | none =>
     simp only [Res.ok.injEq] at h; subst h
-    refine ⟨rfl, hg, ?_⟩
+    refine ⟨hg, ?_⟩
     intro t' m hm
     simp only [List.mem_filter] at hm
     exact hp t' m hm.1
   | some v' =>
-    simp only at h
-    split at h
-    · cases h
-    · rename_i hany
-      simp only [Res.ok.injEq] at h; subst h
-      obtain ⟨cx', tgt, tn, f, ht, htn, hk, hd⟩ := hv v' rfl
-      refine ⟨rfl, ?_, ?_⟩
-      · intro a b hab
-        simp only [List.mem_append, List.mem_map, List.mem_filter] at hab
-        rcases hab with hab | ⟨p, ⟨hpm, hpt⟩, hpe⟩
-        · exact hg a b hab
-        · obtain ⟨pt, pm⟩ := p
-          simp only [Prod.mk.injEq] at hpe; obtain ⟨rfl, rfl⟩ := hpe
-          have hpt' : pt = t := by simpa using hpt
-          subst hpt'
-          obtain ⟨nm, hnm, hrm⟩ := hp _ _ hpm
-          have hkm : nm.kind = n.kind := by
-            have h1 : ¬ (kindOf w pm != some n.kind) = true := by
-              intro hc
-              apply hany
-              simp only [List.any_eq_true, List.mem_filter]
-              exact ⟨(pt, pm), ⟨hpm, by simp⟩, hc⟩
-            simp [kindOf, hnm] at h1
-            exact h1
-          have htm : w.target nm.home pt n.kind = some (cx', tgt) := by
-            rw [← hkm, hT pm o nm n pt hnm hn hrm hr hkm]; exact ht
-          exact ⟨f + 1, by simp [designates, hnm, hrm, hkm, htm, htn, hk, hd]⟩
-      · intro t' m hm
-        simp only [List.mem_filter] at hm
-        exact hp t' m hm.1
+    simp only [Res.ok.injEq] at h; subst h
+    simp only [Bool.or_eq_false_iff] at hq
+    obtain ⟨cx', tgt, tn, f, ht, htn, hk, hd⟩ := hv v' rfl
+    refine ⟨?_, ?_⟩
+    · intro a b hab
+      simp only [List.mem_append, List.mem_map, List.mem_filter] at hab
+      rcases hab with hab | ⟨p, ⟨⟨hpm, hpt⟩, hfit⟩, hpe⟩
+      · exact hg a b hab
+      · obtain ⟨pt, pm⟩ := p
+        simp only [Prod.mk.injEq] at hpe; obtain ⟨rfl, rfl⟩ := hpe
+        have hpt' : pt = t := by simpa using hpt
+        subst hpt'
+        obtain ⟨nm, hnm, hrm⟩ := hp _ _ hpm
+        have hkm : nm.kind = n.kind := by
+          simpa [kindOf, hnm] using hfit
+        -- the callback of `pm` fired and `tclash` stayed clear
+        have hsame : homeTarget w pt pm = tg := by
+          have hall := hq.2
+          rw [List.any_eq_false] at hall
+          have := hall (pt, pm) (by simp only [List.mem_filter]; exact ⟨⟨hpm, by simp⟩, hfit⟩)
+          simpa using this
+        have htm : w.target nm.home pt nm.kind = some (cx', tgt) := by
+          have : homeTarget w pt pm = w.target nm.home pt nm.kind := by simp [homeTarget, hnm]
+          rw [← this, hsame, htg]; exact ht
+        have hk' : tn.kind = nm.kind := by rw [hk, hkm]
+        exact ⟨f + 1, by simp [designates, hnm, hrm, htm, htn, hk', hd]⟩
+    · intro t' m hm
+      simp only [List.mem_filter] at hm
+      exact hp t' m hm.1
+
+theorem unvisit_quiet (w : World) (k : Kind) (t : Text) (tg : Option (Loc × Obj)) (v : Option Obj) (s s' : St)
+    (h : unvisit w k t tg v s = .ok s') (hq : Quiet s') : Quiet s := by
+  unfold unvisit at h
+  cases v with
+  | none => simp only [Res.ok.injEq] at h; subst h; exact hq
+  | some v =>
+    simp only [Res.ok.injEq] at h; subst h
+    obtain ⟨h1, h2⟩ := hq
+    simp only [Bool.or_eq_false_iff] at h2
+    exact ⟨h1, h2.1⟩
 
 /-- a copy (of a reference) designates what its original designates -/
 theorem designates_copy (w : World) (hC : CopyOK w) (c r : Obj) (n : Node) (hn : w.node c = some n)
@@ -167,37 +180,30 @@ theorem pres_loadDoc (w : World) (rs : Loc → Nat → St → Res) (hrs : ∀ l 
     · obtain ⟨h1, h2⟩ := pres_foldRes w (rs l) (hrs l) (w.roots l) _ s' h hfl
       exact ⟨h1, fun hi => h2 ⟨by simpa [Good] using hi.1, by simpa [PendingOK] using hi.2⟩⟩
 
-theorem finish_inv (w : World) (hT : TextIsGlobal w) (rs : Nat → St → Res) (hrs : ∀ k, Pres w (rs k))
-    (t : Text) (o : Obj) (n : Node) (rw : Bool) (v : Option Obj) (s s' : St)
+theorem finish_inv (w : World) (rs : Nat → St → Res) (hrs : ∀ k, Pres w (rs k))
+    (t : Text) (tg : Option (Loc × Obj)) (o : Obj) (n : Node) (rw : Bool) (v : Option Obj) (s s' : St)
     (hn : w.node o = some n) (hr : n.ref = some t)
-    (h : finish w rs n.kind t o rw v s = .ok s') (hfl : s'.foreign = false) :
-    s.foreign = false ∧ (Inv w s →
+    (h : finish w rs n.kind t tg o rw v s = .ok s') (hfl : Quiet s') :
+    Quiet s ∧ (Inv w s → tg = w.target n.home t n.kind →
       (∀ v', v = some v' → ∃ cx' tgt tn f, w.target n.home t n.kind = some (cx', tgt) ∧ w.node tgt = some tn ∧
             tn.kind = n.kind ∧ designates w f tgt = some v') → Inv w s') := by
   unfold finish at h
   cases v with
   | none =>
     simp only at h
-    refine ⟨?_, fun hi _ => ?_⟩
-    · unfold unvisit at h; simp only [Res.ok.injEq] at h; subst h; exact hfl
-    · exact (unvisit_inv w hT t o n none s s' hn hr hi (by intro v' hv'; cases hv') h).2
+    refine ⟨unvisit_quiet w _ _ _ _ _ _ h hfl, fun hi htg _ => ?_⟩
+    exact unvisit_inv w t n tg none s s' hi htg (by intro v' hv'; cases hv') h hfl.2
   | some v' =>
     simp only at h
     cases hf : foldRes rs (if rw = true then ((w.node v').map (·.kids)).getD [] else [])
         { s with value := s.value ++ [(o, v')] } with
     | err _ => simp [hf] at h
-    | panic _ => simp [hf] at h
     | outOfFuel => simp [hf] at h
     | ok s2 =>
       simp only [hf] at h
-      have hfl2 : s2.foreign = false := by
-        unfold unvisit at h
-        simp only at h
-        split at h
-        · cases h
-        · simp only [Res.ok.injEq] at h; subst h; exact hfl
+      have hfl2 : Quiet s2 := unvisit_quiet w _ _ _ _ _ _ h hfl
       obtain ⟨h1, h2⟩ := pres_foldRes w rs hrs _ _ s2 hf hfl2
-      refine ⟨h1, fun hi hv => ?_⟩
+      refine ⟨h1, fun hi htg hv => ?_⟩
       obtain ⟨cx', tgt, tn, f, ht, htn, hk, hd⟩ := hv v' rfl
       have hi1 : Inv w { s with value := s.value ++ [(o, v')] } := by
         refine ⟨?_, by simpa [PendingOK] using hi.2⟩
@@ -206,11 +212,33 @@ theorem finish_inv (w : World) (hT : TextIsGlobal w) (rs : Nat → St → Res) (
         rcases hab with hab | ⟨rfl, rfl⟩
         · exact hi.1 a b hab
         · exact ⟨f + 1, by simp [designates, hn, hr, ht, htn, hk, hd]⟩
-      exact (unvisit_inv w hT t o n (some v') s2 s' hn hr (h2 hi1)
-        (by intro v'' hv''; cases hv''; exact ⟨cx', tgt, tn, f, ht, htn, hk, hd⟩) h).2
+      exact unvisit_inv w t n tg (some v') s2 s' (h2 hi1) htg
+        (by intro v'' hv''; cases hv''; exact ⟨cx', tgt, tn, f, ht, htn, hk, hd⟩) h hfl.2
+
+theorem markDone_ok (o : Obj) (r : Res) (s' : St) (h : markDone o r = .ok s') :
+    ∃ s4, r = .ok s4 ∧ s' = { s4 with done := s4.done ++ [o] } := by
+  cases r with
+  | ok s4 => simp only [markDone, Res.ok.injEq] at h; exact ⟨s4, rfl, h.symm⟩
+  | err _ => simp [markDone] at h
+  | outOfFuel => simp [markDone] at h
+
+theorem inv_done (w : World) (s : St) (d : List Obj) (h : Inv w s) : Inv w { s with done := d } :=
+  ⟨by simpa [Good] using h.1, by simpa [PendingOK] using h.2⟩
+
+theorem pres_markDone (w : World) (o : Obj) (f : St → Res) (hf : Pres w f) : Pres w (fun s => markDone o (f s)) := by
+  intro s s' h hfl
+  cases hr : f s with
+  | ok s1 =>
+    simp only [hr, markDone, Res.ok.injEq] at h; subst h
+    obtain ⟨a, b⟩ := hf s s1 hr hfl
+    exact ⟨a, fun hi => by
+      have := b hi
+      exact ⟨by simpa [Good] using this.1, by simpa [PendingOK] using this.2⟩⟩
+  | err _ => simp [hr, markDone] at h
+  | outOfFuel => simp [hr, markDone] at h
 
 /-- Invariant preservation of the whole resolution, by induction on fuel. -/
-theorem resolve_pres (w : World) (hT : TextIsGlobal w) (hC : CopyOK w) : ∀ fuel cx o, Pres w (resolve w fuel cx o) := by
+theorem resolve_pres (w : World) (hC : CopyOK w) : ∀ fuel cx o, Pres w (resolve w fuel cx o) := by
   intro fuel
   induction fuel with
   | zero => intro cx o s s' h; simp [resolve] at h
@@ -224,14 +252,18 @@ theorem resolve_pres (w : World) (hT : TextIsGlobal w) (hC : CopyOK w) : ∀ fue
       cases hr : n.ref with
       | none =>
         simp only [hr] at h
-        exact pres_foldRes w _ (fun k => ih cx k) _ s s' h hfl
+        exact pres_markDone w o _ (pres_foldRes w _ (fun k => ih cx k) _) s s' h hfl
       | some t =>
         simp only [hr] at h
         by_cases h1 : (getC w s o).isSome = true
-        · rw [if_pos h1] at h; cases h; exact ⟨hfl, id⟩
+        · rw [if_pos h1] at h
+          exact pres_markDone w o (fun s => .ok s) (fun s s' h hf => by cases h; exact ⟨hf, id⟩) s s' h hfl
         · rw [if_neg h1] at h
           by_cases h2 : s.inprog.contains t = true
-          · rw [if_pos h2] at h; simp only [Res.ok.injEq] at h; subst h
+          · rw [if_pos h2] at h
+            refine pres_markDone w o (fun s => .ok { s with pending := s.pending ++ [(t, o)], nback := s.nback + 1 }) ?_ s s' h hfl
+            intro s s' h hfl
+            simp only [Res.ok.injEq] at h; subst h
             refine ⟨hfl, fun hi => ⟨hi.1, ?_⟩⟩
             intro t' m hm
             simp only [List.mem_append, List.mem_singleton, Prod.mk.injEq] at hm
@@ -242,17 +274,18 @@ theorem resolve_pres (w : World) (hT : TextIsGlobal w) (hC : CopyOK w) : ∀ fue
             cases hr1 : loadDoc w (fun l k s => resolve w fuel l k s) (w.docOf cx t)
                 { s with inprog := s.inprog ++ [t], foreign := s.foreign || (cx != n.home) } with
             | err _ => simp [hr1] at h
-            | panic _ => simp [hr1] at h
             | outOfFuel => simp [hr1] at h
             | ok s2 =>
               simp only [hr1] at h
               have hL := pres_loadDoc w (fun l k s => resolve w fuel l k s) (fun l k => ih l k) (w.docOf cx t) _ s2 hr1
-              have key : s2.foreign = false ∧ (cx = n.home → Inv w s2 → Inv w s') := by
+              have key : Quiet s2 ∧ (cx = n.home → Inv w s2 → Inv w s') := by
                 by_cases hE : w.emptyTarget cx t n.kind = true
-                · rw [if_pos hE] at h; cases h; exact ⟨hfl, fun _ hi => hi⟩
+                · rw [if_pos hE] at h
+                  simp only [markDone, Res.ok.injEq] at h; subst h
+                  exact ⟨hfl, fun _ hi => ⟨by simpa [Good] using hi.1, by simpa [PendingOK] using hi.2⟩⟩
                 rw [if_neg hE] at h
                 cases ht : w.target cx t n.kind with
-                | none => simp only [ht] at h; split at h <;> cases h
+                | none => simp only [ht] at h; cases h
                 | some p =>
                   obtain ⟨cx', tgt⟩ := p
                   simp only [ht] at h
@@ -262,30 +295,25 @@ theorem resolve_pres (w : World) (hT : TextIsGlobal w) (hC : CopyOK w) : ∀ fue
                     simp only [htn] at h
                     by_cases hk : tn.kind = n.kind
                     · simp only [hk, ne_eq, not_true_eq_false, if_false] at h
-                      by_cases hpi : n.kind = Kind.pathItem ∧ tn.ref.isSome = true
-                      · rw [if_pos hpi] at h
-                        obtain ⟨a, b⟩ := finish_inv w hT _ (fun k => ih cx k) t o n false (s2.get tgt) s2 s' hn hr h hfl
-                        refine ⟨a, fun hcx hi => b hi (fun v' hv' => ?_)⟩
-                        have hd := hi.1 _ _ (get_mem _ _ _ hv')
-                        exact ⟨cx', tgt, tn, hd.choose, hcx ▸ ht, htn, hk, hd.choose_spec⟩
-                      · rw [if_neg hpi] at h
-                        cases hres : resolve w fuel cx' tgt s2 with
-                        | err _ => simp [hres] at h
-                        | panic _ => simp [hres] at h
-                        | outOfFuel => simp [hres] at h
-                        | ok s3 =>
-                          simp only [hres] at h
-                          obtain ⟨a, b⟩ := finish_inv w hT _ (fun k => ih cx k) t o n _ (valueOf w tgt s3) s3 s' hn hr h hfl
-                          obtain ⟨c, d⟩ := ih cx' tgt s2 s3 hres a
-                          refine ⟨c, fun hcx hi => b (d hi) (fun v' hv' => ?_)⟩
-                          obtain ⟨f, hf⟩ := valueOf_designates w hC tgt tn s3 v' htn (d hi).1 hv'
-                          exact ⟨cx', tgt, tn, f, hcx ▸ ht, htn, hk, hf⟩
+                      cases hres : resolve w fuel cx' tgt s2 with
+                      | err _ => simp [hres] at h
+                      | outOfFuel => simp [hres] at h
+                      | ok s3 =>
+                        simp only [hres] at h
+                        obtain ⟨s4, hfin, rfl⟩ := markDone_ok _ _ _ h
+                        have hfl4 : Quiet s4 := hfl
+                        obtain ⟨a, b⟩ := finish_inv w _ (fun k => ih _ k) t _ o n _ (valueOf w tgt s3) s3 s4 hn hr hfin hfl4
+                        obtain ⟨c, d⟩ := ih cx' tgt s2 s3 hres a
+                        refine ⟨c, fun hcx hi => inv_done w _ _ (b (d hi) (by rw [← hcx, ht]) (fun v' hv' => ?_))⟩
+                        obtain ⟨f, hf⟩ := valueOf_designates w hC tgt tn s3 v' htn (d hi).1 hv'
+                        exact ⟨cx', tgt, tn, f, hcx ▸ ht, htn, hk, hf⟩
                     · simp [hk] at h
               obtain ⟨k1, k2⟩ := key
               obtain ⟨l1, l2⟩ := hL k1
               have hsf : s.foreign = false ∧ cx = n.home := by
-                simp only [Bool.or_eq_false_iff, bne_eq_false_iff_eq] at l1
-                exact l1
-              exact ⟨hsf.1, fun hi => k2 hsf.2 (l2 ⟨by simpa [Good] using hi.1, by simpa [PendingOK] using hi.2⟩)⟩
+                have := l1.1
+                simp only [Bool.or_eq_false_iff, bne_eq_false_iff_eq] at this
+                exact this
+              exact ⟨⟨hsf.1, l1.2⟩, fun hi => k2 hsf.2 (l2 ⟨by simpa [Good] using hi.1, by simpa [PendingOK] using hi.2⟩)⟩
 
 end KinModel.Loader
